@@ -45,6 +45,7 @@ TABLE = [
     ("SimpleGP's extra CSV fields each call their own callback", "C20", "every SimpleGP csv_extra_fields column was computed with the last callback (late-binding closure)"),
     ("RandomizeParallelStep falls back to equal weights", "C15", "RandomizeParallelStep: four zero draws for the new weights made the next generation die with ZeroDivisionError in compute_ranges"),
     ("FeedbackParallelStep hands its sub-steps the materialised population", "C15", "FeedbackParallelStep gave its sub-steps the raw input iterator after consuming it: on a one-shot iterator (e.g. after a selection step in a SequenceStep) only the novelty share was produced (2 of 6)"),
+    ("EvaluateStep materialises its input", "C15", "EvaluateStep consumed a one-shot input iterator while evaluating and then yielded nothing (0 of 6 after a selection step), and ignored target_size on lists"),
 ]
 
 log = subprocess.check_output(["git", "-C", "/repo", "log", "--format=%h %s"]).decode().splitlines()
